@@ -168,8 +168,10 @@ class _OS:
 class Layer:
     """Context manager installing the interposer into mysensors.persistence."""
 
-    def __init__(self, plan=None, record_reads=False):
+    def __init__(self, plan=None, record_reads=False, on_op=None):
         self.plan = plan or FaultPlan()
+        self.on_op = on_op  # callable(idx, kind, basename) run right before an operation ("another thread runs now")
+        self._in_hook = False
         self.trace = []  # (kind, basename, extra)
         self.files = {}  # path -> {"written": n, "synced": n} for files opened for writing
         self.fd_paths = {}
@@ -229,6 +231,12 @@ class Layer:
         idx = self.count
         self.count += 1
         self.trace.append((kind, _os.path.basename(str(path)), extra))
+        if self.on_op is not None and not self._in_hook:
+            self._in_hook = True
+            try:
+                self.on_op(idx, kind, _os.path.basename(str(path)))
+            finally:
+                self._in_hook = False
         plan = self.plan
         if plan.k == idx and not plan.fired:
             plan.fired = True
